@@ -182,12 +182,16 @@ STORAGE_COMPONENTS = dict(
 
 PROPS["C02"]["packages"] = ["engine_sim", "storage_sim"]
 PROPS["C02"]["parts"] = [
-    dict(bin="engine_sim", args=["--prop", "C02"], workers=12),
-    dict(bin="storage_sim", args=["--prop", "C02"], workers=4),
+    dict(bin="engine_sim", args=["--prop", "C02"], workers=11),
+    dict(bin="storage_sim", args=["--prop", "C02"], workers=3),
+    dict(bin="storage_sim", args=["--prop", "C02i"], workers=2),
 ]
 PROPS["C02"]["rule"] += (" | structure level (storage_sim, 4 of 16 workers): CompressedBackwardEdgeSet pre-filled to 27-33 "
                          "elements, 2-4 token-scheduled threads insert/remove their own elements and read len()/iter(), "
-                         "with a scheduling point in the 32 -> large upgrade; per-element single-writer register rule")
+                         "with a scheduling point in the 32 -> large upgrade; per-element single-writer register rule | "
+                         "in-memory key-of-set map (2 of 16 workers): 2-4 token-scheduled threads insert / remove their own "
+                         "elements under 1-3 keys that have no set yet and read the sets, with a scheduling point after the "
+                         "lookup miss; same register rule")
 PROPS["C09"] = dict(
     bin="storage_sim", packages=["storage_sim"], args=["--prop", "C09"],
     quick_s=90, thorough_s=600, level="exploration", also=[],
@@ -320,12 +324,12 @@ QUICK_RUNS = {
     ("engine_sim", "C01"): 2000, ("engine_sim", "C02"): 1200, ("engine_sim", "C03"): 2000,
     ("engine_sim", "C04"): 2000, ("engine_sim", "C05"): 2000, ("engine_sim", "C06"): 1700,
     ("engine_sim", "C07"): 1000, ("engine_sim", "C08"): 280, ("engine_sim", "C08r"): 32,
-    ("storage_sim", "C02"): 3000, ("storage_sim", "C09"): 1100, ("storage_sim", "C10"): 1700,
+    ("storage_sim", "C02"): 3000, ("storage_sim", "C02i"): 4000, ("storage_sim", "C09"): 1100, ("storage_sim", "C10"): 1700,
     ("storage_sim", "C15"): 2900, ("storage_sim", "C16"): 1300, ("storage_sim", "C16b"): 950,
     ("kv_sim", ""): 40, ("codec_sim", "C12"): 130000, ("codec_sim", "C13"): 200000,
 }
 
-HOOK_COMMITS = ["06b6edb", "0ffc033", "d5f7b95", "752f4f3", "281bdb8"]
+HOOK_COMMITS = ["06b6edb", "0ffc033", "d5f7b95", "752f4f3", "281bdb8", "9279b96"]
 
 NOT_BUILT = "check not built yet (work in progress in this session; see DESIGN.md section 8 for the order of construction)"
 NOT_APPLICABLE = {
